@@ -720,9 +720,28 @@ fn inbound_to(w: &mut W, v6: bool, h: u8, did: u32, size: usize, port: u16, iden
         6003 | 6004 => (RAW_PROTO, dgram_payload(did, size.max(4)), (if (port == 6004) != v6 { 40 } else { 20 }) + size.max(4)),
         _ => (17, udp_datagram(5000 + h as u16, port, &dgram_payload(did, size)), size),
     };
-    w.sizes.insert(did, socksize);
     let v6 = if port == 6004 { !v6 } else { v6 };
+    // IPv6: every fourth UDP / raw datagram carries a hop-by-hop options header (padding only) in front of its payload;
+    // a raw socket is handed the packet as it arrived, that header included
+    let hbh = v6 && did % 4 == 3 && (proto == 17 || proto == RAW_PROTO);
+    let socksize = if hbh && proto == RAW_PROTO { socksize + 8 } else { socksize };
+    w.sizes.insert(did, socksize);
     let dk = if proto == 17 { dk } else { 0 };
+    if v6 && hbh {
+        let mut all_nodes = [0u8; 16];
+        all_nodes[0] = 0xff;
+        all_nodes[1] = 0x02;
+        all_nodes[15] = 1;
+        let (dm, da) = if dk == 0 { (MY_MAC, a6(MY_IP)) } else { ([0x33, 0x33, 0, 0, 0, 1], all_nodes) };
+        let inner = ipv6_packet(a6(src), da, proto, 64, &body, true);
+        let mut p = inner[..40].to_vec();
+        let plen = (inner.len() - 40 + 8) as u16;
+        p[4..6].copy_from_slice(&plen.to_be_bytes());
+        p[6] = 0;
+        p.extend_from_slice(&[proto, 0, 1, 4, 0, 0, 0, 0]);
+        p.extend_from_slice(&inner[40..]);
+        return eth_frame(dm, mac_of(src), 0x86dd, &p);
+    }
     if v6 {
         let mut all_nodes = [0u8; 16];
         all_nodes[0] = 0xff;
@@ -755,6 +774,8 @@ fn app_recv(w: &mut W, k: usize, cap: usize, peek: bool, v6: bool, t: &mut Trace
         // an ICMP error: the datagram id sits in the quoted UDP payload
         let is_err = kind == 1 && !data.is_empty() && (if v6 { data[0] == 1 || data[0] == 3 } else { data[0] == 3 || data[0] == 11 });
         let hdr = if is_err { 8 + (if v6 { 40 } else { 20 }) + 8 } else { hdr };
+        // a raw IPv6 packet with a hop-by-hop header: the payload starts behind it
+        let hdr = if kind >= 2 && v6 && data.len() >= 48 && data[6] == 0 { 40 + 8 * (1 + data[41] as usize) } else { hdr };
         // (datagram id, position of the first octet that differs from what the sender wrote)
         if data.len() < hdr + 4 {
             return (u32::MAX as i64, 0);
